@@ -25,6 +25,11 @@ func (f *Failover) VerifStop() {
 	if f.Errors != nil {
 		f.Errors.VerifStop()
 	}
+
+	// backend created by NewFailover itself from BackendConfig (the harness stops its own backends)
+	if sm, ok := f.backend.(*ShardedMap); ok {
+		sm.VerifStop()
+	}
 }
 
 // VerifKeyLocks returns the number of per-key build locks currently held.
